@@ -157,6 +157,11 @@ def _check_state_fields():
 
 _check_state_fields()
 
+# third-party parsers that are *not* inverses of the stdlib writers the library uses (facts about pendulum 3.x)
+LOSSY_PARSERS = {
+    "pendulum.parse": "ignores the UTC offset of time-only text ('01:02:03+05:30' -> today at UTC) and rejects offsets with a seconds part",
+}
+
 UTC_NAMES = {"datetime.timezone.utc", "datetime.UTC"}
 
 # classes whose == is as fine as their printed form *and* which admit no subclass with extra printed state in this
